@@ -254,9 +254,14 @@ def _check_klatt(case):
         import codecs
         with open(fn, encoding="utf-8", newline="") as fd:
             text = fd.read()
+        body = text.split("\n")
         for how, raw in (("UTF-16 little-endian with BOM", codecs.BOM_UTF16_LE + text.encode("utf-16-le")),
                          ("UTF-16 big-endian with BOM", codecs.BOM_UTF16_BE + text.encode("utf-16-be")),
-                         ("UTF-8 with CR LF line ends", text.replace("\n", "\r\n").encode("utf-8"))):
+                         ("UTF-8 with CR LF line ends", text.replace("\n", "\r\n").encode("utf-8")),
+                         # layout: Praat ignores white space in front of a line; a file whose body (everything after the three header lines) is
+                         # indented by four blanks / by one tab is the same KlattGrid
+                         ("UTF-8, every line after the header indented by four blanks", "\n".join(body[:3] + [("    " + ln if ln.strip() else ln) for ln in body[3:]]).encode("utf-8")),
+                         ("UTF-8, every line after the header indented by a tab", "\n".join(body[:3] + [("\t" + ln if ln.strip() else ln) for ln in body[3:]]).encode("utf-8"))):
             fn2 = os.path.join(scratch_dir(), "c19-enc.KlattGrid")
             with open(fn2, "wb") as fd:
                 fd.write(raw)
